@@ -371,7 +371,7 @@ Proof.
   eapply tot_bind; [apply (getint_tot_plain o "DF394" I), in_plain_reads; cbn; auto|]. intros d4 _.
   eapply tot_bind; [apply (getint_tot_plain o "DF395" I), in_plain_reads; cbn; auto|]. intros d5 _.
   eapply tot_bind; [apply (getint_tot_plain o "DF396" I), in_plain_reads; cbn; auto 6|]. intros d6 _.
-  cbn. exact I.
+  exact I.
 Qed.
 
 Lemma good_int_allowed nm z c : cap_allows T nm c = true -> Z.abs z <= c -> good nm (VInt z).
@@ -413,3 +413,299 @@ Proof.
   apply setattr_tot; [exact I|]. eapply good_int_allowed; [exact DC|].
   destruct Wd as [[X _]|[_ Wc]]; [congruence|lia].
 Qed.
+
+(* ---- harmonic coefficient counts ---- *)
+Lemma tri_bounds x K : Z.abs x <= K -> 0 <= x * (x + 1) / 2 <= K * (K + 1) / 2.
+Proof.
+  intro H. split.
+  - apply Z.div_pos; [nia|lia].
+  - apply Z.div_le_mono; [lia|nia].
+Qed.
+
+Lemma harm_bounds n0 m0 : Z.abs n0 <= cap_harm -> Z.abs m0 <= cap_harm ->
+  let N' := n0 + 1 in let M' := m0 + 1 in
+  let nc := ((N' + 1) * (N' + 2)) / 2 - ((N' - M') * (N' - M' + 1)) / 2 in
+  let ns := nc - (N' + 1) in
+  Z.abs N' <= 512 /\ Z.abs M' <= 512 /\ Z.abs nc <= cap_count /\ Z.abs ns <= cap_count.
+Proof.
+  unfold cap_harm, cap_count. intros Hn Hm N' M' nc ns.
+  assert (A : 0 <= (N' + 1) * (N' + 2) / 2 <= 513 * (513 + 1) / 2).
+  { replace (N' + 2) with ((N' + 1) + 1) by lia. apply tri_bounds. unfold N'. lia. }
+  assert (B : 0 <= (N' - M') * (N' - M' + 1) / 2 <= 1022 * (1022 + 1) / 2).
+  { apply tri_bounds. unfold N', M'. lia. }
+  change (513 * (513 + 1) / 2) with 131841 in A. change (1022 * (1022 + 1) / 2) with 522753 in B.
+  unfold ns, nc. unfold N', M' in *. repeat split; lia.
+Qed.
+
+Lemma cap_harm_name pre x : (pre = "IDF037_" \/ pre = "IDF038_")%string -> cap T (pre ++ x)%string = Some cap_harm.
+Proof.
+  intro H. unfold cap.
+  assert (X : String.prefix "IDF037_" (pre ++ x)%string || String.prefix "IDF038_" (pre ++ x)%string = true).
+  { apply orb_true_iff. destruct H as [->| ->]; [left|right]; apply prefix_app_r', prefix_refl'. }
+  rewrite X. reflexivity.
+Qed.
+
+Lemma post_harm_tot anam idx o : InvO o -> tot InvO (post_harm T anam idx o).
+Proof.
+  intro I. unfold post_harm. destruct (String.eqb anam "IDF038"); [|exact I].
+  unfold harmonic_counts. destruct (first_index idx) as [i| | |] eqn:FI; cbn [obind]; try exact Logic.I.
+  - destruct (i <? 0); [exact Logic.I|].
+    eapply tot_bind; [apply (getint_tot_capped o _ cap_harm I), cap_harm_name; auto|]. intros n0 Hn.
+    eapply tot_bind; [apply (getint_tot_capped o _ cap_harm I), cap_harm_name; auto|]. intros m0 Hm.
+    destruct (harm_bounds n0 m0 Hn Hm) as [BN [BM [BC BS]]].
+    change (2^24) with 16777216.
+    replace ((16777216 <? Z.abs (n0 + 1)) || (16777216 <? Z.abs (m0 + 1))) with false
+      by (symmetry; apply orb_false_iff; split; apply Z.ltb_ge; lia).
+    destruct derived_facts as [_ [_ [_ [DC DS]]]].
+    eapply tot_bind; [apply setattr_tot; [exact I|eapply good_int_allowed; [exact DC|exact BC]]|].
+    intros o' I'. apply setattr_tot; [exact I'|eapply good_int_allowed; [exact DS|exact BS]].
+  - destruct idx; discriminate.
+Qed.
+
+(* ---- the whole step ---- *)
+Lemma field_width_tot anam fd o : InvO o ->
+  tot (fun w => (String.eqb anam "DF396" = false /\ w = df_bits fd) \/ (String.eqb anam "DF396" = true /\ w <= cap_count))
+      (field_width T anam fd o).
+Proof.
+  intro I. unfold field_width. destruct (String.eqb anam "DF396"); [|cbn; auto].
+  destruct cap_nsat as [c1 [C1 L1]]. destruct cap_nsig as [c2 [C2 L2]].
+  eapply tot_bind; [apply (getint_tot_capped o _ c1 I C1)|]. intros a Ha.
+  eapply tot_bind; [apply (getint_tot_capped o _ c2 I C2)|]. intros b Hb.
+  cbn. right. split; [reflexivity|]. unfold cap_mask, cap_count in *. nia.
+Qed.
+
+Lemma label_lookup_tot {A} idx (m:option (list (Z*A))) (f:A -> string) :
+  tot (fun vb => snd vb = None /\ exists s, fst vb = VStr s) (label_lookup idx m f).
+Proof.
+  unfold label_lookup. destruct (first_index idx) as [i| | |] eqn:FI; cbn [obind]; try exact Logic.I.
+  - destruct m as [m|]; [|exact Logic.I]. destruct (zassoc i m); cbn; eauto.
+  - destruct idx; discriminate.
+Qed.
+
+Definition vb_ok (fd:dfield) (w:Z) (vb:value * option N) : Prop :=
+  (snd vb = None /\ exists s, fst vb = VStr s) \/
+  (exists bits, snd vb = Some bits /\ 0 <= w /\ 0 <= Z.of_N bits < 2^w /\ valspec fd w (fst vb)).
+
+Lemma read_value_tot anam fd idx o off w :
+  find_field T anam = Some fd -> (String.eqb anam "DF396" = false -> w = df_bits fd) ->
+  tot (vb_ok fd w) (read_value fd idx o off w).
+Proof.
+  intros F Wd. destruct (find_field_some T anam fd F) as [I K].
+  assert (BV : is_label_ty (df_ty fd) = false ->
+          tot (vb_ok fd w) (do bits <- get_bits (o_payloadi o) (8 * Z.of_nat (List.length (o_payload o))) off w;
+                            bit_value fd w bits)).
+  { intro LT. destruct (get_bits (o_payloadi o) (8 * Z.of_nat (List.length (o_payload o))) off w) as [bits| | |] eqn:GB;
+      cbn [obind]; try exact Logic.I.
+    - destruct (get_bits_range _ _ _ _ _ GB) as [W B].
+      eapply tot_weaken; [|apply (bit_value_tot fd w bits B W LT)].
+      + intros [v ob] [E VS]. right. exists bits. cbn [fst snd] in *. auto.
+      + intro U. pose proof (Hfields fd I) as FO. unfold field_ok in FO. rewrite U in FO.
+        apply andb_true_iff in FO. destruct FO as [NB FO]. split.
+        * destruct (df_res fd); [exact Logic.I|exact Logic.I|discriminate].
+        * intro FR. destruct (float_field_facts fd I U FR) as [B53 [K6 _]]. rewrite K in K6. rewrite (Wd K6). exact B53.
+      + intro TY. pose proof (Hfields fd I) as FO. unfold field_ok in FO. rewrite TY in FO. exact FO.
+    - unfold get_bits in GB. destruct ((_ <? 0) || (w <? 0)); discriminate. }
+  unfold read_value.
+  destruct (df_ty fd) eqn:TY; try (apply BV; reflexivity);
+    (eapply tot_weaken; [|apply label_lookup_tot]; intros vb H; left; exact H).
+Qed.
+
+Lemma field_tot ident anam idx o off : InvO o ->
+  tot (fun s => InvO (fst s)) (set_single T ident anam idx (o, off)).
+Proof.
+  intro I. rewrite set_single_stages. destruct (find_field T anam) as [fd|] eqn:F; [|exact Logic.I].
+  unfold field_stages.
+  eapply tot_bind; [apply (field_width_tot anam fd o I)|]. intros w Wd.
+  assert (Wd' : String.eqb anam "DF396" = false -> w = df_bits fd).
+  { intro E. destruct Wd as [[_ X]|[X _]]; [exact X|congruence]. }
+  eapply tot_bind; [apply (read_value_tot anam fd idx o off w F Wd')|]. intros [v ob] VB. cbn [fst snd].
+  assert (G : forall nm, String.prefix anam nm = true -> good nm v).
+  { destruct VB as [[_ [s E]]|[bits [_ [_ [_ VS]]]]]; cbn [fst snd] in *.
+    - subst v. intros nm _. exact Logic.I.
+    - apply (good_of_valspec fd anam w v F Wd' VS). }
+  eapply tot_bind; [apply (store_value_tot _ anam idx v o I G)|]. intros o1 I1.
+  eapply tot_bind.
+  - destruct VB as [[E _]|[bits [E [W [B _]]]]]; cbn [fst snd] in E; subst ob.
+    + unfold post_mask. destruct (is_mask_name anam); [exact Logic.I|exact I1].
+    + apply (post_mask_tot ident anam fd w bits o1 F I1 W B Wd).
+  - intros o2 I2. eapply tot_bind; [apply post_harm_tot, I2|]. intros o3 I3. exact I3.
+Qed.
+
+(* ================= repeat counts ================= *)
+Lemma suffix_first_tot n : forall idx k k0, Forall (fun i => 0 <= i) idx -> String.prefix k0 k = true ->
+  tot (fun s => String.prefix k0 s = true) (suffix_first n idx k).
+Proof.
+  induction n as [|n IH]; intros idx k k0 NN P; cbn [suffix_first]; [exact P|].
+  destruct idx as [|i r]; [exact Logic.I|]. inversion NN as [|? ? Hi Hr]. subst.
+  replace (i <? 0) with false by (symmetry; apply Z.ltb_ge; exact Hi).
+  apply IH; [exact Hr|apply prefix_app_r', P].
+Qed.
+
+Lemma cap_of_base b nm : In b (bases T) -> String.prefix b nm = true -> exists c, cap T nm = Some c /\ c <= cap_count.
+Proof.
+  intros Ib P. unfold cap.
+  destruct (String.prefix "IDF037_" nm || String.prefix "IDF038_" nm);
+    [exists cap_harm; split; [reflexivity|unfold cap_harm, cap_count; lia]|].
+  destruct (String.eqb nm (t_nsat T) || String.eqb nm (t_nsig T));
+    [exists cap_mask; split; [reflexivity|unfold cap_mask, cap_count; lia]|].
+  assert (X : existsb (fun b0 => String.prefix b0 nm) (bases T) = true) by (apply existsb_exists; eauto).
+  rewrite X. exists cap_count. split; [reflexivity|lia].
+Qed.
+
+Lemma group_size_tot c idx o :
+  count_ok c = true -> (forall key, c = CNamed key -> In (fst (split_plus key)) (bases T)) ->
+  Forall (fun i => 0 <= i) idx -> InvO o ->
+  tot (fun n => n <= max_count) (group_size c idx o).
+Proof.
+  intros CO HB NN I. destruct c as [n|key|w]; cbn [group_size count_ok] in *.
+  - apply Z.leb_le in CO. exact CO.
+  - specialize (HB key eq_refl).
+    assert (G : forall anam, String.prefix (fst (split_plus key)) anam = true ->
+              tot (fun n => n <= max_count) (do g <- getint o anam; Ok (if String.eqb anam "IDF035" then g + 1 else g))).
+    { intros anam P. destruct (cap_of_base _ anam HB P) as [c [C L]].
+      eapply tot_bind; [apply (getint_tot_capped o anam c I C)|]. intros g Hg. cbn.
+      unfold cap_count, max_count in *. destruct (String.eqb anam "IDF035"); lia. }
+    destruct (split_plus key) as [k [nl|]]; cbn [fst] in *.
+    + destruct (contains "+" nl); [exact Logic.I|]. cbn [orb] in CO.
+      destruct (N_of_str nl) as [n|]; [|discriminate].
+      eapply tot_bind; [apply (suffix_first_tot (N.to_nat n) idx k k NN (prefix_refl' k))|].
+      intros anam P. apply G, P.
+    + cbn [obind]. apply G, prefix_refl'.
+  - discriminate.
+Qed.
+
+(* ================= the walk ================= *)
+Definition StOK (s:st) : Prop := InvO (fst s).
+
+Lemma rep_tot (f:list Z -> st -> outcome st) idx :
+  Forall (fun i => 0 <= i) idx ->
+  (forall i s, 0 <= i -> StOK s -> tot StOK (f (idx ++ [i]) s)) ->
+  forall n i s, 0 <= i -> StOK s -> tot StOK (rep f idx n i s).
+Proof.
+  intros NN Hf. induction n as [|n IH]; intros i s Hi Hs; cbn [rep]; [exact Hs|].
+  eapply tot_bind; [apply Hf; assumption|]. intros s' Hs'. apply IH; [lia|exact Hs'].
+Qed.
+
+Lemma bases_body_cons lbl it r : bases_body (BItems ((lbl, it) :: r)) = bases_item it ++ bases_body (BItems r).
+Proof. reflexivity. Qed.
+Lemma conds_body_cons lbl it r : conds_body (BItems ((lbl, it) :: r)) = conds_item it ++ conds_body (BItems r).
+Proof. reflexivity. Qed.
+Lemma tot_body_cons lbl it r : tot_body (BItems ((lbl, it) :: r)) = tot_item it && tot_body (BItems r).
+Proof. reflexivity. Qed.
+
+Lemma walk_tot ident :
+  (forall it lbl idx s, tot_item it = true -> incl (bases_item it) (bases T) -> incl (conds_item it) (conds T) ->
+     Forall (fun i => 0 <= i) idx -> StOK s -> tot StOK (dec_item T ident lbl it idx s)) /\
+  (forall b idx s, tot_body b = true -> incl (bases_body b) (bases T) -> incl (conds_body b) (conds T) ->
+     Forall (fun i => 0 <= i) idx -> StOK s -> tot StOK (dec_body T ident b idx s)).
+Proof.
+  apply item_body_ind.
+  - intros k lbl idx [o off] _ _ _ _ Hs. rewrite dec_item_field. apply field_tot, Hs.
+  - intros w lbl idx s H. discriminate.
+  - intros c b IHb lbl idx s TI IB IC NN Hs. rewrite dec_item_group.
+    cbn [tot_item] in TI. apply andb_true_iff in TI. destruct TI as [CO TB].
+    cbn [bases_item] in IB. cbn [conds_item] in IC.
+    eapply tot_bind.
+    + apply (group_size_tot c idx (fst s) CO); [|exact NN|exact Hs].
+      intros key ->. apply IB. apply in_app_iff. left. now left.
+    + intros n Hn. replace (max_count <? n) with false by (symmetry; apply Z.ltb_ge; exact Hn).
+      apply rep_tot; [exact NN| |lia|exact Hs].
+      intros i s0 Hi Hs0. apply IHb; try assumption.
+      * intros x Hx. apply IB, in_app_iff. now right.
+      * apply Forall_app. split; [exact NN|]. constructor; [exact Hi|constructor].
+  - intros k con b IHb lbl idx s TI IB IC NN Hs. rewrite dec_item_opt.
+    cbn [tot_item] in TI. cbn [bases_item] in IB. cbn [conds_item] in IC.
+    unfold getattr. destruct (assoc k (o_attrs (fst s))) as [v|] eqn:A; cbn [obind]; [|exact Logic.I].
+    destruct v as [z|f|str].
+    + destruct (z =? con); [|exact Hs]. apply IHb; try assumption. intros x Hx. apply IC. now right.
+    + exfalso. apply assoc_In in A. pose proof (Hs k (VFloat f) A) as G. cbn in G.
+      assert (P : In k (plain_reads T)).
+      { unfold plain_reads. apply in_app_iff. left. apply IC. now left. }
+      rewrite (plain_not_floaty k P) in G. discriminate.
+    + exact Hs.
+  - intros l IHl idx s TB IB IC NN Hs. rewrite dec_body_items.
+    revert s Hs TB IB IC. induction IHl as [|[lbl it] r Hit Hr IHr]; intros s Hs TB IB IC.
+    + rewrite dec_items_nil. exact Hs.
+    + rewrite tot_body_cons in TB. apply andb_true_iff in TB. destruct TB as [T1 T2].
+      rewrite bases_body_cons in IB. rewrite conds_body_cons in IC.
+      rewrite dec_items_cons. cbn [snd] in Hit.
+      eapply tot_bind.
+      * apply Hit; try assumption.
+        -- intros x Hx. apply IB, in_app_iff. now left.
+        -- intros x Hx. apply IC, in_app_iff. now left.
+      * intros s1 Hs1. apply IHr; try assumption.
+        -- intros x Hx. apply IB, in_app_iff. now right.
+        -- intros x Hx. apply IC, in_app_iff. now right.
+  - intros w idx s H. discriminate.
+Qed.
+
+(* ================= the constructor ================= *)
+Lemma get_dict_layout ident b : get_dict T ident = Some b -> In (ident, b) (all_layouts T).
+Proof.
+  unfold get_dict, all_layouts. intro H.
+  destruct (String.leb "1070" ident && String.leb ident "1229").
+  - apply assoc_In in H. apply in_app_iff. right. apply in_app_iff. now left.
+  - destruct (String.eqb (substring 0 4 ident) "4076"); apply assoc_In in H; apply in_app_iff.
+    + right. apply in_app_iff. now right.
+    + now left.
+Qed.
+
+Lemma decode_raw_tot p lbl : tot StOK (decode_raw T (obj0 p lbl)).
+Proof.
+  unfold decode_raw. change (o_payload (obj0 p lbl)) with p.
+  destruct (identity p) as [ident| | |] eqn:ID; cbn [obind]; try exact Logic.I.
+  - destruct (get_dict T ident) as [b|] eqn:D.
+    + pose proof (get_dict_layout ident b D) as IL.
+      apply (proj2 (walk_tot ident)).
+      * apply (Hlayouts ident b IL).
+      * intros x Hx. unfold bases. apply in_flat_map. exists (ident, b). split; [exact IL|exact Hx].
+      * intros x Hx. unfold conds. apply in_flat_map. exists (ident, b). split; [exact IL|exact Hx].
+      * constructor.
+      * exact Inv_nil.
+    + cbn. exact Logic.I.
+  - unfold identity in ID. destruct p as [|b0 [|b1 r]]; try discriminate.
+    destruct (N.eqb (msgnum b0 b1) 4076); [destruct r|]; discriminate.
+Qed.
+
+Theorem construct_total_T : forall p lbl,
+  match construct T p lbl with Ok _ | Lib _ => True | _ => False end.
+Proof.
+  intros [p|] lbl; [|exact Logic.I].
+  pose proof (construct_no_foreign T (Some p) lbl) as NF.
+  rewrite construct_decode_run in *. unfold decode_run in *.
+  destruct (too_short p) eqn:G; [exact Logic.I|].
+  destruct (identity_ok_of_guard p G) as [i ID].
+  pose proof (decode_raw_tot p lbl) as R.
+  unfold handler in *. destruct (decode_raw T (obj0 p lbl)) as [s| | |]; cbn in *; rewrite ?ID in *; cbn; auto.
+Qed.
+End Total.
+
+(* under the decidable table condition the constructor returns a message or a library error:
+   never a foreign exception, never an answer outside the model *)
+Theorem construct_total : forall T, tables_total_ok T = true ->
+  forall p lbl, match construct T p lbl with Ok _ | Lib _ => True | _ => False end.
+Proof. intros T H. apply construct_total_T, H. Qed.
+
+(* the same, split by payload length *)
+Corollary construct_total_cases : forall T, tables_total_ok T = true ->
+  forall p lbl, (too_short p = true /\ construct T (Some p) lbl = Lib EMessage) \/
+                (too_short p = false /\ ((exists o, construct T (Some p) lbl = Ok o) \/ construct T (Some p) lbl = Lib EType)).
+Proof.
+  intros T H p lbl. destruct (too_short p) eqn:G.
+  - left. split; [reflexivity|apply construct_short, G].
+  - right. split; [reflexivity|]. pose proof (construct_total T H (Some p) lbl) as C.
+    destruct (construct T (Some p) lbl) as [o|e| |] eqn:E; try contradiction.
+    + left. eauto.
+    + right. f_equal. eapply construct_lib_is_type; eauto.
+Qed.
+
+(* tables_total_ok contains the static layout check *)
+Lemma tables_total_ok_layouts T : tables_total_ok T = true -> layout_problems T = [].
+Proof.
+  unfold tables_total_ok. intro H. apply andb_true_iff in H. destruct H as [H _].
+  apply andb_true_iff in H. destruct H as [H _]. apply andb_true_iff in H. destruct H as [H _].
+  destruct (layout_problems T); [reflexivity|discriminate].
+Qed.
+
+Print Assumptions construct_total.
+Print Assumptions construct_total_cases.
